@@ -4304,6 +4304,13 @@ class TLSConnection(TLSRecordLayer):
                                                   "Client Hello"):
                         yield result
 
+                if ext.client_shares is None:
+                    for result in self._sendError(AlertDescription
+                                                  .decode_error,
+                                                  "Empty key_share extension "
+                                                  "in second Client Hello"):
+                        yield result
+
                 # here we're assuming that the HRR was sent because of
                 # missing key share, that may not always be the case
                 if len(ext.client_shares) != 1:
